@@ -15,19 +15,31 @@ from pjrpc.server import dispatcher as _server_dispatcher
 
 
 class HookedRequest(pjrpc.Request):
-    pass
+    @classmethod
+    def from_json(cls, json_data: Any) -> 'HookedRequest':          # the documented signature, overridden and delegating
+        return super().from_json(json_data)  # type: ignore[return-value]
 
 
 class HookedResponse(pjrpc.Response):
-    pass
+    @classmethod
+    def from_json(cls, json_data: Any, error_cls: Any = pjrpc.exceptions.JsonRpcError) -> 'HookedResponse':
+        return super().from_json(json_data, error_cls=error_cls)  # type: ignore[return-value]
+
+    def __bool__(self) -> bool:
+        # a convenience many response types offer: "if response:" means "it succeeded"; protocol-wise nothing changes
+        return self.is_success
 
 
 class HookedBatchRequest(pjrpc.BatchRequest):
-    pass
+    @classmethod
+    def from_json(cls, data: Any) -> 'HookedBatchRequest':
+        return super().from_json(data)  # type: ignore[return-value]
 
 
 class HookedBatchResponse(pjrpc.BatchResponse):
-    pass
+    @classmethod
+    def from_json(cls, json_data: Any, error_cls: Any = pjrpc.exceptions.JsonRpcError) -> 'HookedBatchResponse':
+        return super().from_json(json_data, error_cls=error_cls)  # type: ignore[return-value]
 
 
 class HookedEncoder(JSONEncoder):
